@@ -7,7 +7,7 @@ with overflow checks (debug profile), so a failing guard is `Outcome.panic`; a r
 wrap instead (outside the model, see `estimate_no_panic` for the exact precondition under which both
 profiles agree).  All numeric constants come from `Gen/Estimate.lean` (regenerated from the source).
 -/
-namespace Chewing
+namespace Chewing.Learn
 open Gen.Est
 
 def u32Max : Nat := 4294967295
@@ -61,4 +61,4 @@ def EstimatePre (lifetime freq : Nat) (lastUsed : Option Nat) (orig maxF : Nat) 
       orig ≤ maxF ∧ freq + risingDelta mediumDiv mediumPlus mediumInc freq orig maxF ≤ u32Max) ∧
   (shortBand ≤ lifetime - lu → mediumBand ≤ lifetime - lu → orig ≤ freq ∧ max ((freq - orig) / longDiv) longDec ≤ freq)
 
-end Chewing
+end Chewing.Learn
